@@ -61,7 +61,7 @@ func genCBloom(seed uint64, tier, variant string) any {
 	added, never := probItems(seed, nitems)
 	ntasks, maxCalls, maxMulti := 2+r.IntN(4), 7, 4
 	if heavy {
-		ntasks, maxCalls, maxMulti = 2+r.IntN(2), 4, 2
+		ntasks, maxCalls, maxMulti = 2, 3, 2
 	}
 	item := func() string { return added[r.IntN(len(added))] }
 	for ti := 0; ti < ntasks; ti++ {
